@@ -66,7 +66,7 @@ def plan(tier, seed):
                     specs.append({"name": f"model-{d}-L{li}-{fmode}-s{s}", "mode": "model", "driver": d, "li": li, "fmode": fmode, "steps": 10 if not big else 40, "seed": seed, "s": s})
     for d in ("Canonical", "GrandCanonical", "ForceBias"):
         for fmode in ("a", "w"):
-            specs.append({"name": f"kill-{d}-{fmode}", "mode": "kill", "driver": d, "fmode": fmode, "steps": 6, "kills": 8 if not big else 50, "seed": seed})
+            specs.append({"name": f"kill-{d}-{fmode}", "mode": "kill", "driver": d, "fmode": fmode, "steps": 6, "kills": 8 if not big else 150, "seed": seed})
     return specs
 
 
